@@ -12,12 +12,6 @@ open RH Plain2
 
 variable {c : Cfg} {D : Type}
 
-/-- a ghost bound small enough for the size conditions of `insert_total` -/
-def SizeFits (c : Cfg) (N : Nat) : Prop := 3 * N + 5 + c.W + 3 ≤ 2 ^ c.W
-
-theorem SizeFits.mono {N N' : Nat} (h : SizeFits c N) (hle : N' ≤ N) : SizeFits c N' := by
-  unfold SizeFits at *; omega
-
 /-- every bound below `2^62` fits the 64-bit configuration -/
 theorem sizeFits64 {N : Nat} (h : N ≤ 2 ^ 62) : SizeFits cfg64 N := by
   have : cfg64.W = 64 := rfl
@@ -25,17 +19,15 @@ theorem sizeFits64 {N : Nat} (h : N ≤ 2 ^ 62) : SizeFits cfg64 N := by
   rw [this]
   omega
 
-theorem allCores (ok : CfgOK c) (g : Rng D) : ∀ fuel, CoreOK c g fuel := fun fuel => coreOK ok g fuel
-
 /-- `insert` returns normally for a set within a fitting ghost bound, and the bound grows by at most one -/
-theorem insert_total_cap (ok : CfgOK c) (lk : Like64 c) (cc : CapCfg c) (g : Rng D) (fuel : Nat) {r : Rp}
+theorem insert_total_cap (ok : CfgOK c) (lk : LikeS c) (cc : CapCfg c) (g : Rng D) (fuel : Nat) {r : Rp}
     (wf : WF c r) (e : Nat) (he : e < 2 ^ c.W) {M : Nat} (hc : CapOK r M) (hM : SizeFits c M) (d : D) :
     ∃ r' b d', insert c g (fuel + 2) r e d = .ok ((r', b), d') ∧ InsOK c r e r' b ∧ CapOK r' (M + 1) ∧
       CapOK r' (Max.max M (len r')) := by
   have h1 := hc.1
   have h2 := hc.2
   unfold SizeFits at hM
-  obtain ⟨r', b, d', h⟩ := insert_total ok lk g fuel wf e he (by omega) (by omega) d
+  obtain ⟨r', b, d', h⟩ := insert_totalS ok lk g fuel wf e he (by omega) (by omega) d
   have sp := insert_refines ok g (fuel + 2) r e d r' b d' wf he h
   have cp := insert_capOK ok cc g (allCores ok g) (fuel + 2) r e d r' b d' M wf he hc h
   have hl := len_of_InsOK ok wf sp
@@ -44,7 +36,7 @@ theorem insert_total_cap (ok : CfgOK c) (lk : Like64 c) (cc : CapCfg c) (g : Rng
   exact ⟨r', b, d', h, sp, cp.mono (Nat.max_le.2 ⟨Nat.le_succ _, hle⟩), cp⟩
 
 /-- a loop of inserts returns normally; the ghost bound grows by at most the number of items -/
-theorem insertAll_total_cap (ok : CfgOK c) (lk : Like64 c) (cc : CapCfg c) (g : Rng D) (fuel : Nat) :
+theorem insertAll_total_cap (ok : CfgOK c) (lk : LikeS c) (cc : CapCfg c) (g : Rng D) (fuel : Nat) :
     ∀ (xs : List Nat) (r : Rp) (d : D) (M : Nat), WF c r → (∀ x ∈ xs, x < 2 ^ c.W) → CapOK r M →
       SizeFits c (M + xs.length) →
       ∃ r' d', insertAll (insert c g (fuel + 2)) r xs d = .ok (r', d') ∧ WF c r' ∧ CapOK r' (M + xs.length) := by
@@ -63,7 +55,7 @@ theorem insertAll_total_cap (ok : CfgOK c) (lk : Like64 c) (cc : CapCfg c) (g : 
     exact c2.mono (by omega)
 
 /-- **`extend` returns normally**, and what it returns is right (`extend_capOK`) -/
-theorem extend_total (ok : CfgOK c) (lk : Like64 c) (cc : CapCfg c) (g : Rng D) (fuel : Nat) {r : Rp} (wf : WF c r)
+theorem extend_total (ok : CfgOK c) (lk : LikeS c) (cc : CapCfg c) (g : Rng D) (fuel : Nat) {r : Rp} (wf : WF c r)
     (xs : List Nat) (hx : ∀ x ∈ xs, x < 2 ^ c.W) {M : Nat} (hc : CapOK r M) (hfit : SizeFits c (M + xs.length)) (d : D) :
     ∃ r' d', extend c g (fuel + 2) r xs d = .ok (r', d') ∧ WF c r' ∧ CapOK r' (M + xs.length) ∧
       CapOK r' (Max.max M (len r')) ∧ len r ≤ len r' ∧ ∀ x, x ∈ elems c r' ↔ (x ∈ elems c r ∨ x ∈ xs) := by
@@ -79,7 +71,7 @@ theorem removeAll_cons_ok (g : Rng D) (fuel : Nat) (r : Rp) (x : Nat) (xs : List
   rfl
 
 /-- **a loop of removes returns normally** (no size condition) -/
-theorem removeAll_total (ok : CfgOK c) (lk : Like64 c) (g : Rng D) (fuel : Nat) :
+theorem removeAll_total (ok : CfgOK c) (lk : LikeS c) (cc : CapCfg c) (g : Rng D) (fuel : Nat) :
     ∀ (xs : List Nat) (r : Rp) (d : D), WF c r → (∀ x ∈ xs, x < 2 ^ c.W) →
       ∃ r' d', removeAll c g (fuel + 1) r xs d = .ok (r', d') := by
   intro xs
@@ -87,7 +79,7 @@ theorem removeAll_total (ok : CfgOK c) (lk : Like64 c) (g : Rng D) (fuel : Nat) 
   | nil => intro r d _ _; exact ⟨r, d, rfl⟩
   | cons x xs ih =>
     intro r d wf hx
-    obtain ⟨r1, b, d1, h1⟩ := remove_total ok lk g fuel wf x (hx x List.mem_cons_self) d
+    obtain ⟨r1, b, d1, h1⟩ := remove_total ok lk cc g fuel wf x (hx x List.mem_cons_self) d
     have sp := remove_refines ok g (fuel + 1) wf x (hx x List.mem_cons_self) h1
     obtain ⟨r', d', h2⟩ := ih r1 d1 sp.wf (fun y hy => hx y (List.mem_cons_of_mem _ hy))
     exact ⟨r', d', by rw [removeAll_cons_ok g _ _ _ _ _ h1]; exact h2⟩
@@ -103,7 +95,7 @@ theorem diff_filter_length_le (ok : CfgOK c) {a : Rp} (wa : WF c a) (b : Rp) :
   exact List.length_filter_le _ _
 
 /-- `&a | &b` -/
-theorem unionRef_total (ok : CfgOK c) (lk : Like64 c) (cc : CapCfg c) (g : Rng D) (fuel : Nat) {a b : Rp}
+theorem unionRef_total (ok : CfgOK c) (lk : LikeS c) (cc : CapCfg c) (g : Rng D) (fuel : Nat) {a b : Rp}
     (wa : WF c a) (wb : WF c b) {Ma Mb : Nat} (ha : CapOK a Ma) (hb : CapOK b Mb)
     (hfit : SizeFits c (Max.max Ma Mb + len a + len b)) (d : D) :
     ∃ r d', unionRef c g (fuel + 2) a b d = .ok (r, d') := by
@@ -122,7 +114,7 @@ theorem unionRef_total (ok : CfgOK c) (lk : Like64 c) (cc : CapCfg c) (g : Rng D
   exact ⟨r, d', by rw [bind_run h1]; exact h2⟩
 
 /-- `a | &b` -/
-theorem unionOwn_total (ok : CfgOK c) (lk : Like64 c) (cc : CapCfg c) (g : Rng D) (fuel : Nat) {a b : Rp}
+theorem unionOwn_total (ok : CfgOK c) (lk : LikeS c) (cc : CapCfg c) (g : Rng D) (fuel : Nat) {a b : Rp}
     (wa : WF c a) (wb : WF c b) {Ma : Nat} (ha : CapOK a Ma) (hfit : SizeFits c (Ma + len b)) (d : D) :
     ∃ r d', unionOwn c g (fuel + 2) a b d = .ok (r, d') := by
   unfold unionOwn
@@ -132,7 +124,7 @@ theorem unionOwn_total (ok : CfgOK c) (lk : Like64 c) (cc : CapCfg c) (g : Rng D
   exact ⟨r, d', h⟩
 
 /-- `&a | &b` for `Set64` (starts from `new()`) -/
-theorem unionRef64_total (ok : CfgOK c) (lk : Like64 c) (cc : CapCfg c) (g : Rng D) (fuel : Nat) {a b : Rp}
+theorem unionRef64_total (ok : CfgOK c) (lk : LikeS c) (cc : CapCfg c) (g : Rng D) (fuel : Nat) {a b : Rp}
     (wa : WF c a) (wb : WF c b) (hfit : SizeFits c (len a + len b)) (d : D) :
     ∃ r d', unionRef64 c g (fuel + 2) a b d = .ok (r, d') := by
   unfold unionRef64
@@ -145,7 +137,7 @@ theorem unionRef64_total (ok : CfgOK c) (lk : Like64 c) (cc : CapCfg c) (g : Rng
   exact ⟨r, d', by rw [bind_run h1]; exact h2⟩
 
 /-- `&a - &b` -/
-theorem diffRef_total (ok : CfgOK c) (lk : Like64 c) (cc : CapCfg c) (g : Rng D) (fuel : Nat) {a : Rp} (b : Rp)
+theorem diffRef_total (ok : CfgOK c) (lk : LikeS c) (cc : CapCfg c) (g : Rng D) (fuel : Nat) {a : Rp} (b : Rp)
     (wa : WF c a) {Ma : Nat} (ha : CapOK a Ma) (hfit : SizeFits c (Ma + len a)) (d : D) :
     ∃ r d', diffRef c g (fuel + 2) a b d = .ok (r, d') := by
   unfold diffRef
@@ -157,7 +149,7 @@ theorem diffRef_total (ok : CfgOK c) (lk : Like64 c) (cc : CapCfg c) (g : Rng D)
   exact ⟨r, d', h⟩
 
 /-- `&a - &b` for `Set64` (starts from `new()`) -/
-theorem diffRef64_total (ok : CfgOK c) (lk : Like64 c) (cc : CapCfg c) (g : Rng D) (fuel : Nat) {a : Rp} (b : Rp)
+theorem diffRef64_total (ok : CfgOK c) (lk : LikeS c) (cc : CapCfg c) (g : Rng D) (fuel : Nat) {a : Rp} (b : Rp)
     (wa : WF c a) (hfit : SizeFits c (len a)) (d : D) :
     ∃ r d', diffRef64 c g (fuel + 2) a b d = .ok (r, d') := by
   unfold diffRef64
@@ -169,9 +161,9 @@ theorem diffRef64_total (ok : CfgOK c) (lk : Like64 c) (cc : CapCfg c) (g : Rng 
   exact ⟨r, d', h⟩
 
 /-- `a - &b` (a loop of removes: no size condition) -/
-theorem diffOwn_total (ok : CfgOK c) (lk : Like64 c) (g : Rng D) (fuel : Nat) {a b : Rp}
+theorem diffOwn_total (ok : CfgOK c) (lk : LikeS c) (cc : CapCfg c) (g : Rng D) (fuel : Nat) {a b : Rp}
     (wa : WF c a) (wb : WF c b) (d : D) : ∃ r d', diffOwn c g (fuel + 1) a b d = .ok (r, d') :=
-  removeAll_total ok lk g fuel (elems c b) a d wa (absOK_of_wf ok wb).range
+  removeAll_total ok lk cc g fuel (elems c b) a d wa (absOK_of_wf ok wb).range
 
 /-! ### the `SetU64` instances, with the partial-correctness theorems attached
 
@@ -183,7 +175,7 @@ theorem extend_total_u64 (g : Rng D) (fuel : Nat) {r : Rp} (wf : WF cfg64 r) (xs
     (hx : ∀ x ∈ xs, x < 2 ^ 64) {M : Nat} (hc : CapOK r M) (hsize : M + xs.length < 2 ^ 60) (d : D) :
     ∃ r' d', extend cfg64 g (fuel + 2) r xs d = .ok (r', d') ∧ WF cfg64 r' ∧ CapOK r' (Max.max M (len r')) ∧
       ∀ x, x ∈ elems cfg64 r' ↔ (x ∈ elems cfg64 r ∨ x ∈ xs) := by
-  obtain ⟨r', d', h, w, _, cp, _, hm⟩ := extend_total cfg64_ok cfg64_like capCfg64 g fuel wf xs hx hc
+  obtain ⟨r', d', h, w, _, cp, _, hm⟩ := extend_total cfg64_ok cfg64_likeS capCfg64 g fuel wf xs hx hc
     (sizeFits64 (by omega)) d
   exact ⟨r', d', h, w, cp, hm⟩
 
@@ -195,7 +187,7 @@ theorem unionRef_total_u64 (g : Rng D) (fuel : Nat) {a b : Rp} (wa : WF cfg64 a)
   have h1 := ha.2
   have h2 := hb.2
   have h3 : Max.max Ma Mb ≤ Ma + Mb := Nat.max_le.2 ⟨by omega, by omega⟩
-  obtain ⟨r, d', h⟩ := unionRef_total cfg64_ok cfg64_like capCfg64 g fuel wa wb ha hb (sizeFits64 (by omega)) d
+  obtain ⟨r, d', h⟩ := unionRef_total cfg64_ok cfg64_likeS capCfg64 g fuel wa wb ha hb (sizeFits64 (by omega)) d
   obtain ⟨w, m, _⟩ := unionRef_ok cfg64_ok (coreOK cfg64_ok g (fuel + 2)) wa wb h
   exact ⟨r, d', h, w, m⟩
 
@@ -205,7 +197,7 @@ theorem unionOwn_total_u64 (g : Rng D) (fuel : Nat) {a b : Rp} (wa : WF cfg64 a)
     ∃ r d', unionOwn cfg64 g (fuel + 2) a b d = .ok (r, d') ∧ WF cfg64 r ∧
       (∀ x, x ∈ elems cfg64 r ↔ (x ∈ elems cfg64 a ∨ x ∈ elems cfg64 b)) := by
   have h2 := hb.2
-  obtain ⟨r, d', h⟩ := unionOwn_total cfg64_ok cfg64_like capCfg64 g fuel wa wb ha (sizeFits64 (by omega)) d
+  obtain ⟨r, d', h⟩ := unionOwn_total cfg64_ok cfg64_likeS capCfg64 g fuel wa wb ha (sizeFits64 (by omega)) d
   obtain ⟨w, m, _⟩ := unionOwn_ok (coreOK cfg64_ok g (fuel + 2)) wa wb h
   exact ⟨r, d', h, w, m⟩
 
@@ -214,7 +206,7 @@ theorem unionRef64_total_u64 (g : Rng D) (fuel : Nat) {a b : Rp} (wa : WF cfg64 
     (hsize : len a + len b < 2 ^ 60) (d : D) :
     ∃ r d', unionRef64 cfg64 g (fuel + 2) a b d = .ok (r, d') ∧ WF cfg64 r ∧
       (∀ x, x ∈ elems cfg64 r ↔ (x ∈ elems cfg64 a ∨ x ∈ elems cfg64 b)) := by
-  obtain ⟨r, d', h⟩ := unionRef64_total cfg64_ok cfg64_like capCfg64 g fuel wa wb (sizeFits64 (by omega)) d
+  obtain ⟨r, d', h⟩ := unionRef64_total cfg64_ok cfg64_likeS capCfg64 g fuel wa wb (sizeFits64 (by omega)) d
   obtain ⟨w, m, _⟩ := unionRef64_ok (coreOK cfg64_ok g (fuel + 2)) wa wb h
   exact ⟨r, d', h, w, m⟩
 
@@ -224,7 +216,7 @@ theorem diffRef_total_u64 (g : Rng D) (fuel : Nat) {a b : Rp} (wa : WF cfg64 a) 
     ∃ r d', diffRef cfg64 g (fuel + 2) a b d = .ok (r, d') ∧ WF cfg64 r ∧
       (∀ x, x ∈ elems cfg64 r ↔ (x ∈ elems cfg64 a ∧ x ∉ elems cfg64 b)) := by
   have h1 := ha.2
-  obtain ⟨r, d', h⟩ := diffRef_total cfg64_ok cfg64_like capCfg64 g fuel b wa ha (sizeFits64 (by omega)) d
+  obtain ⟨r, d', h⟩ := diffRef_total cfg64_ok cfg64_likeS capCfg64 g fuel b wa ha (sizeFits64 (by omega)) d
   obtain ⟨w, m, _⟩ := diffRef_ok cfg64_ok (coreOK cfg64_ok g (fuel + 2)) wa wb h
   exact ⟨r, d', h, w, m⟩
 
@@ -233,7 +225,7 @@ theorem diffRef64_total_u64 (g : Rng D) (fuel : Nat) {a b : Rp} (wa : WF cfg64 a
     (hsize : len a < 2 ^ 60) (d : D) :
     ∃ r d', diffRef64 cfg64 g (fuel + 2) a b d = .ok (r, d') ∧ WF cfg64 r ∧
       (∀ x, x ∈ elems cfg64 r ↔ (x ∈ elems cfg64 a ∧ x ∉ elems cfg64 b)) := by
-  obtain ⟨r, d', h⟩ := diffRef64_total cfg64_ok cfg64_like capCfg64 g fuel b wa (sizeFits64 (by omega)) d
+  obtain ⟨r, d', h⟩ := diffRef64_total cfg64_ok cfg64_likeS capCfg64 g fuel b wa (sizeFits64 (by omega)) d
   obtain ⟨w, m, _⟩ := diffRef64_ok (coreOK cfg64_ok g (fuel + 2)) wa wb h
   exact ⟨r, d', h, w, m⟩
 
@@ -241,8 +233,77 @@ theorem diffRef64_total_u64 (g : Rng D) (fuel : Nat) {a b : Rp} (wa : WF cfg64 a
 theorem diffOwn_total_u64 (g : Rng D) (fuel : Nat) {a b : Rp} (wa : WF cfg64 a) (wb : WF cfg64 b) (d : D) :
     ∃ r d', diffOwn cfg64 g (fuel + 2) a b d = .ok (r, d') ∧ WF cfg64 r ∧
       (∀ x, x ∈ elems cfg64 r ↔ (x ∈ elems cfg64 a ∧ x ∉ elems cfg64 b)) := by
-  obtain ⟨r, d', h⟩ := diffOwn_total cfg64_ok cfg64_like g (fuel + 1) wa wb d
+  obtain ⟨r, d', h⟩ := diffOwn_total cfg64_ok cfg64_likeS capCfg64 g (fuel + 1) wa wb d
   obtain ⟨w, m, _⟩ := diffOwn_ok (coreOK cfg64_ok g (fuel + 2)) wa wb h
+  exact ⟨r, d', h, w, m⟩
+
+/-! ### the `SetU32` instances (ghost bound below `2^28`) -/
+
+/-- `SetU32::extend` returns normally and adds exactly the items -/
+theorem extend_total_u32 (g : Rng D) (fuel : Nat) {r : Rp} (wf : WF cfg32 r) (xs : List Nat)
+    (hx : ∀ x ∈ xs, x < 2 ^ 32) {M : Nat} (hc : CapOK r M) (hsize : M + xs.length < 2 ^ 28) (d : D) :
+    ∃ r' d', extend cfg32 g (fuel + 2) r xs d = .ok (r', d') ∧ WF cfg32 r' ∧ CapOK r' (Max.max M (len r')) ∧
+      ∀ x, x ∈ elems cfg32 r' ↔ (x ∈ elems cfg32 r ∨ x ∈ xs) := by
+  obtain ⟨r', d', h, w, _, cp, _, hm⟩ := extend_total cfg32_ok cfg32_likeS capCfg32 g fuel wf xs hx hc
+    (sizeFits32 (by omega)) d
+  exact ⟨r', d', h, w, cp, hm⟩
+
+/-- `&a | &b` (`SetU32`) -/
+theorem unionRef_total_u32 (g : Rng D) (fuel : Nat) {a b : Rp} (wa : WF cfg32 a) (wb : WF cfg32 b) {Ma Mb : Nat}
+    (ha : CapOK a Ma) (hb : CapOK b Mb) (hsize : Ma + Mb < 2 ^ 28) (d : D) :
+    ∃ r d', unionRef cfg32 g (fuel + 2) a b d = .ok (r, d') ∧ WF cfg32 r ∧
+      (∀ x, x ∈ elems cfg32 r ↔ (x ∈ elems cfg32 a ∨ x ∈ elems cfg32 b)) := by
+  have h1 := ha.2
+  have h2 := hb.2
+  have h3 : Max.max Ma Mb ≤ Ma + Mb := Nat.max_le.2 ⟨by omega, by omega⟩
+  obtain ⟨r, d', h⟩ := unionRef_total cfg32_ok cfg32_likeS capCfg32 g fuel wa wb ha hb (sizeFits32 (by omega)) d
+  obtain ⟨w, m, _⟩ := unionRef_ok cfg32_ok (coreOK cfg32_ok g (fuel + 2)) wa wb h
+  exact ⟨r, d', h, w, m⟩
+
+/-- `a | &b` (`SetU32`) -/
+theorem unionOwn_total_u32 (g : Rng D) (fuel : Nat) {a b : Rp} (wa : WF cfg32 a) (wb : WF cfg32 b) {Ma Mb : Nat}
+    (ha : CapOK a Ma) (hb : CapOK b Mb) (hsize : Ma + Mb < 2 ^ 28) (d : D) :
+    ∃ r d', unionOwn cfg32 g (fuel + 2) a b d = .ok (r, d') ∧ WF cfg32 r ∧
+      (∀ x, x ∈ elems cfg32 r ↔ (x ∈ elems cfg32 a ∨ x ∈ elems cfg32 b)) := by
+  have h2 := hb.2
+  obtain ⟨r, d', h⟩ := unionOwn_total cfg32_ok cfg32_likeS capCfg32 g fuel wa wb ha (sizeFits32 (by omega)) d
+  obtain ⟨w, m, _⟩ := unionOwn_ok (coreOK cfg32_ok g (fuel + 2)) wa wb h
+  exact ⟨r, d', h, w, m⟩
+
+/-- `&a | &b` (`Set32`) -/
+theorem unionRef64_total_u32 (g : Rng D) (fuel : Nat) {a b : Rp} (wa : WF cfg32 a) (wb : WF cfg32 b)
+    (hsize : len a + len b < 2 ^ 28) (d : D) :
+    ∃ r d', unionRef64 cfg32 g (fuel + 2) a b d = .ok (r, d') ∧ WF cfg32 r ∧
+      (∀ x, x ∈ elems cfg32 r ↔ (x ∈ elems cfg32 a ∨ x ∈ elems cfg32 b)) := by
+  obtain ⟨r, d', h⟩ := unionRef64_total cfg32_ok cfg32_likeS capCfg32 g fuel wa wb (sizeFits32 (by omega)) d
+  obtain ⟨w, m, _⟩ := unionRef64_ok (coreOK cfg32_ok g (fuel + 2)) wa wb h
+  exact ⟨r, d', h, w, m⟩
+
+/-- `&a - &b` (`SetU32`) -/
+theorem diffRef_total_u32 (g : Rng D) (fuel : Nat) {a b : Rp} (wa : WF cfg32 a) (wb : WF cfg32 b) {Ma : Nat}
+    (ha : CapOK a Ma) (hsize : Ma < 2 ^ 28) (d : D) :
+    ∃ r d', diffRef cfg32 g (fuel + 2) a b d = .ok (r, d') ∧ WF cfg32 r ∧
+      (∀ x, x ∈ elems cfg32 r ↔ (x ∈ elems cfg32 a ∧ x ∉ elems cfg32 b)) := by
+  have h1 := ha.2
+  obtain ⟨r, d', h⟩ := diffRef_total cfg32_ok cfg32_likeS capCfg32 g fuel b wa ha (sizeFits32 (by omega)) d
+  obtain ⟨w, m, _⟩ := diffRef_ok cfg32_ok (coreOK cfg32_ok g (fuel + 2)) wa wb h
+  exact ⟨r, d', h, w, m⟩
+
+/-- `&a - &b` (`Set32`) -/
+theorem diffRef64_total_u32 (g : Rng D) (fuel : Nat) {a b : Rp} (wa : WF cfg32 a) (wb : WF cfg32 b)
+    (hsize : len a < 2 ^ 28) (d : D) :
+    ∃ r d', diffRef64 cfg32 g (fuel + 2) a b d = .ok (r, d') ∧ WF cfg32 r ∧
+      (∀ x, x ∈ elems cfg32 r ↔ (x ∈ elems cfg32 a ∧ x ∉ elems cfg32 b)) := by
+  obtain ⟨r, d', h⟩ := diffRef64_total cfg32_ok cfg32_likeS capCfg32 g fuel b wa (sizeFits32 (by omega)) d
+  obtain ⟨w, m, _⟩ := diffRef64_ok (coreOK cfg32_ok g (fuel + 2)) wa wb h
+  exact ⟨r, d', h, w, m⟩
+
+/-- `a - &b` (`SetU32`; no size condition) -/
+theorem diffOwn_total_u32 (g : Rng D) (fuel : Nat) {a b : Rp} (wa : WF cfg32 a) (wb : WF cfg32 b) (d : D) :
+    ∃ r d', diffOwn cfg32 g (fuel + 2) a b d = .ok (r, d') ∧ WF cfg32 r ∧
+      (∀ x, x ∈ elems cfg32 r ↔ (x ∈ elems cfg32 a ∧ x ∉ elems cfg32 b)) := by
+  obtain ⟨r, d', h⟩ := diffOwn_total cfg32_ok cfg32_likeS capCfg32 g (fuel + 1) wa wb d
+  obtain ⟨w, m, _⟩ := diffOwn_ok (coreOK cfg32_ok g (fuel + 2)) wa wb h
   exact ⟨r, d', h, w, m⟩
 
 #print axioms insert_total_cap
@@ -261,4 +322,11 @@ theorem diffOwn_total_u64 (g : Rng D) (fuel : Nat) {a b : Rp} (wa : WF cfg64 a) 
 #print axioms diffRef_total_u64
 #print axioms diffRef64_total_u64
 #print axioms diffOwn_total_u64
+#print axioms extend_total_u32
+#print axioms unionRef_total_u32
+#print axioms unionOwn_total_u32
+#print axioms unionRef64_total_u32
+#print axioms diffRef_total_u32
+#print axioms diffRef64_total_u32
+#print axioms diffOwn_total_u32
 end SC
